@@ -45,6 +45,17 @@ def number(code):
 def make_world():
     from .c01 import build_world
     w = World(catalogue=True)
+    # every user symbol is looked up and parsed once BEFORE it exists (must
+    # fail), so that a memoised miss would be visible afterwards
+    for ev in USER:
+        sym = ev[2] if ev[0] in ('type', 'unit') else ev[3]
+        if isinstance(sym, str):
+            for f in (lambda: w.q.Unit(sym), lambda: w.q.Quantity(f"1 {sym}")):
+                try:
+                    f()
+                    raise AssertionError(f"{sym} known before declaration")
+                except ValueError:
+                    pass
     for ev in USER:
         r = w.apply(ev)
         assert r[0] == 'ok', (ev, r)
